@@ -146,14 +146,14 @@ type Outcome struct {
 
 // PE - the evaluator
 type PE struct {
-	info   *types.Info
-	u      *Universe
+	info *types.Info
+	u    *Universe
 	// oracle supplies values for calls the analysis treats as inputs (Peek(), len(x), string(buf)…)
 	oracle func(pe *PE, st *peState, call *ast.CallExpr, id string) (Val, bool)
 	// lists: package-level or local slice variables with constant elements (for Contains* helpers)
-	fn      *ast.FuncDecl
-	failed  string // set when an unsupported construct was met (extraction undecided)
-	steps   int
+	fn          *ast.FuncDecl
+	failed      string // set when an unsupported construct was met (extraction undecided)
+	steps       int
 	inlineDepth int
 	// selOracle supplies values for field reads the analysis treats as inputs (e.g. expr.Type)
 	selOracle func(pe *PE, st *peState, sel *ast.SelectorExpr) (Val, bool)
@@ -924,7 +924,18 @@ func (pe *PE) execStmt(st *peState, s ast.Stmt) []Outcome {
 		return pe.execFor(st, x)
 	case *ast.RangeStmt:
 		// over a known text: one pass per character
-		if seq := pe.eval(st, x.X); seq.K == vStr && !strings.ContainsRune(seq.S, unknownRune) && len(seq.S) <= 64 {
+		seq := pe.eval(st, x.X)
+		if seq.K == 0 {
+			// a package-level table of constants
+			if list, ok := pe.constList(x.X); ok {
+				var sb strings.Builder
+				for _, v := range list {
+					sb.WriteRune(rune(v))
+				}
+				seq = Val{K: vStr, S: sb.String()}
+			}
+		}
+		if seq.K == vStr && !strings.ContainsRune(seq.S, unknownRune) && len(seq.S) <= 256 {
 			_, isString := pe.info.TypeOf(x.X).Underlying().(*types.Basic)
 			var out []Outcome
 			cur := []*peState{st}
